@@ -115,3 +115,21 @@ MUTANTS += [
  dict(id='c07-g-keeps-g', props=['C07'], file=U,
       old="    if s[-1].lower()=='g': s = s[:-1]\n    return _norm_tzeroes(s)\n", new="    return _norm_tzeroes(s)\n"),
 ]
+
+MUTANTS += [
+ # ---- C10 -----------------------------------------------------------------------
+ dict(id='c10-swap-jumps-throws', props=['C10'], edits=[
+      (U, "        return 4, order, discipline", "        return 3, order, discipline"),
+      (U, "        return 3, order, discipline\n\n    m = PAT_RELAYS", "        return 4, order, discipline\n\n    m = PAT_RELAYS")]),
+ dict(id='c10-field-order-swap', props=['C10'], file=C, old='"SP", "DT", "HT", "JT", "CT",', new='"SP", "HT", "DT", "JT", "CT",'),
+ dict(id='c10-text-pad4', props=['C10'], file=U, old='return "%d_%05d_%s" % discipline_sort_key(discipline)', new='return "%d_%04d_%s" % discipline_sort_key(discipline)'),
+ dict(id='c10-hurdles-distance-const', props=['C10'], file=U,
+      old="        distance = int(m.group(1))\n        return 2, distance, discipline", new="        distance = int(m.group(1)[:2])\n        return 2, distance, discipline"),
+ dict(id='c10-sorter-unstable', props=['C10'], file=U,
+      old="    sorter.sort(key=lambda x: x[0])", new="    sorter.reverse(); sorter.sort(key=lambda x: x[0])"),
+ dict(id='c10-relay-legs', props=['C10'], file=U,
+      old="        distance = get_distance(m.group(2).upper()) or 0", new="        distance = int(m.group(1))"),
+ dict(id='c10-unfix-comma', props=['C10'], file=C, old='"SBT", "SCT",\n', new='"SBT", "SCT"\n'),
+ dict(id='c10-relay-distance', props=['C10'], file=U,
+      old="        return int(m.group(1)) * leg", new="        return (int(m.group(1)) % 10) * leg"),
+]
